@@ -381,9 +381,11 @@ fn run_pipeline_case(r: &Rig, m: &Model, s: St, a: Ac) -> Option<(String, String
     if got_hooks != exp_hooks {
         return Some(("O-C12-do_effect-trace".into(), format!("do_effect hooks {:?}", exp_hooks), format!("do_effect hooks {:?}", got_hooks)));
     }
-    // C11 says exactly once, not in which order: compare as multisets
+    // C11 says exactly once, on a worker: neither the order nor the entry point (dispatch_task or dispatch_thunk with an
+    // ignored dispatcher) through which a Function/Task effect reaches the pool is part of it; thunks and action effects
+    // need the dispatcher, so they can only go through dispatch_thunk
     let count = |v: &Vec<Ev>, k: &Ev| v.iter().filter(|e| *e == k).count();
-    let same_ms = got_handed.len() == exp_handed.len() && count(&got_handed, &Ev::Task) == count(&exp_handed, &Ev::Task);
+    let same_ms = got_handed.len() == exp_handed.len() && count(&got_handed, &Ev::Thunk) >= count(&exp_handed, &Ev::Thunk);
     if !same_ms || !effects.is_empty() {
         return Some(("O-C11-do_effect-spawn".into(), format!("handed to the dispatcher {:?}, 0 left", exp_handed), format!("handed to the dispatcher {:?}, {} left", got_handed, effects.len())));
     }
